@@ -100,8 +100,10 @@ public:
   /// Hooks run on the thread that calls connect()/close()/stop(), with no fake lock held.
   struct Hooks
   {
+    std::function<net::TransportError()> preConnect; // != None: connect() fails synchronously with it
     std::function<void(SessionId)> inConnect; // after the sid is allocated, before connect() returns
-    std::function<void(SessionId)> inClose;   // after the close is recorded, before close() returns
+    std::function<void(SessionId, bool)> inClose; // after the close is recorded (2nd arg: close() accepted
+                                                  // it, i.e. the engine was running), before close() returns
     std::function<void()> inStop;             // after _running was cleared, before stop() returns
   };
 
@@ -244,8 +246,13 @@ public:
   }
   void stop() override
   {
-    bool exp = true;
-    if (!_running.compare_exchange_strong(exp, false)) return;
+    {
+      // under _mu: a session inserted by a racing connect() is either refused or visible
+      // to the shutdown closes that follow (TcpEngine: closed command queue / shutdownDrain)
+      std::lock_guard<std::mutex> lk(_mu);
+      bool exp = true;
+      if (!_running.compare_exchange_strong(exp, false)) return;
+    }
     if (_hooks.inStop) _hooks.inStop();
   }
   bool isRunning() const override { return _running.load(); }
@@ -262,12 +269,18 @@ public:
     if (ce != static_cast<int>(net::TransportError::None))
       return net::ConnectResult::err(
         net::TransportErrorInfo{static_cast<net::TransportError>(ce), "fake: connect refused synchronously"});
-    if (!_running.load())
-      return net::ConnectResult::err(
-        net::TransportErrorInfo{net::TransportError::ShuttingDown, "fake: not running"});
+    if (_hooks.preConnect)
+    {
+      net::TransportError pe = _hooks.preConnect();
+      if (pe != net::TransportError::None)
+        return net::ConnectResult::err(net::TransportErrorInfo{pe, "fake: connect failed synchronously"});
+    }
     SessionId sid;
     {
       std::lock_guard<std::mutex> lk(_mu);
+      if (!_running.load())
+        return net::ConnectResult::err(
+          net::TransportErrorInfo{net::TransportError::ShuttingDown, "fake: not running"});
       sid = _nextSid++;
       _sess[sid].st = SessState::Connecting;
       _connects.push_back(ConnectCall{sid, host, port, tls, std::this_thread::get_id(), ++_seq});
@@ -292,7 +305,7 @@ public:
         if (it->second.closeCalls++ == 0) it->second.closeCallSeq = s;
       }
     }
-    if (_hooks.inClose) _hooks.inClose(sid);
+    if (_hooks.inClose) _hooks.inClose(sid, ok);
     return ok;
   }
   bool send(SessionId sid, const void *data, std::size_t len) override
@@ -359,6 +372,17 @@ public:
     {
       std::unique_lock<std::mutex> lk(mu);
       cv.wait(lk, [this] { return done; });
+    }
+    /// bounded variants for callers that hold a lock the task may need
+    bool waitStartedFor(std::chrono::microseconds d)
+    {
+      std::unique_lock<std::mutex> lk(mu);
+      return cv.wait_for(lk, d, [this] { return started; });
+    }
+    bool waitDoneFor(std::chrono::microseconds d)
+    {
+      std::unique_lock<std::mutex> lk(mu);
+      return cv.wait_for(lk, d, [this] { return done; });
     }
   };
 
